@@ -4,6 +4,8 @@ import (
 	"bytes"
 	"fmt"
 	"image"
+	"image/color"
+	"os"
 	"runtime"
 	"strings"
 	"sync"
@@ -19,7 +21,7 @@ func init() { suites["recon"] = suiteRecon }
 //   (b) any filter strength: the Lean RFC-6386 decoder's PRE-FILTER planes (op vp8raw) == reconstruction,
 //       when the driver provides that op (otherwise counted as skipped).
 func suiteRecon(rep *Report) error {
-	rep.Rule = "lossy Encode over image class x size (incl. non-multiples of 16, 1x1, 320x320) x Quality x Method 0..6 x Segments 1..4 x Partitions 0..3 x Pass x SNS/filter settings x presets x QMin/QMax x TargetSize/TargetPSNR x sharp YUV, on 1 CPU and 4 CPUs; the encoder's reconstruction planes (hook) are compared with (a) webp.Decode's YCbCr planes when FilterStrength=0 and (b) the Lean spec decoder's pre-loop-filter planes for any strength; decoded size must equal the source size; non-trivial = image not flat"
+	rep.Rule = "lossy Encode over image class (incl. every 37th case: >= 510 macroblocks of a periodic texture with one or two flat macroblocks, Segments 2..4, SNS > 0 - the segment map is then dropped) x size (incl. non-multiples of 16, 1x1, 320x320, 368x368, 512x512, 1024x144) x Quality x Method 0..6 x Segments 1..4 x Partitions 0..3 x Pass x SNS/filter settings x presets x QMin/QMax x TargetSize/TargetPSNR x sharp YUV, on 1 CPU and 4 CPUs; the encoder's reconstruction planes (hook) are compared with (a) webp.Decode's YCbCr planes when FilterStrength=0 and (b) the Lean spec decoder's pre-loop-filter planes for any strength; decoded size must equal the source size; non-trivial = image not flat"
 	defer runtime.GOMAXPROCS(runtime.GOMAXPROCS(0))
 	n := 260
 	if rep.Tier == "thorough" {
@@ -42,6 +44,7 @@ func suiteRecon(rep *Report) error {
 		hex  string
 	}
 	var pends []pend
+	var infoLines, infoDesc []string
 	for i := 0; i < n; i++ {
 		r := NewRNG(rep.Seed, uint64(i))
 		sz := sizes[r.Intn(len(sizes))]
@@ -82,9 +85,31 @@ func suiteRecon(rep *Report) error {
 			o.Preprocessing = r.Intn(4)
 		}
 		procs := []int{1, 4}[r.Intn(2)]
+		idesc := imgDesc(sz[0], sz[1], cls, acls)
+		if i%37 == 5 {
+			// >= 510 macroblocks of one periodic texture plus one (or two) flat macroblocks, several
+			// segments, SNS on: the segment analysis puts all but < 1/510 of the macroblocks into one
+			// segment, the rounded segment-tree probabilities are all 255 and the encoder drops the
+			// segment map - every macroblock must then be coded with the quantiser the decoder will use
+			r2 := NewRNG(rep.Seed, 0x0600000+uint64(i))
+			sz = [][2]int{{512, 512}, {368, 368}, {512, 512}, {1024, 144}, {368, 384}}[(i/37)%5]
+			var what string
+			img, what = genTextureOutlier(r2, sz[0], sz[1])
+			idesc = fmt.Sprintf("%dx%d/%s", sz[0], sz[1], what)
+			o = webp.DefaultOptions()
+			o.Quality = float32([]int{75, 50, 90, 75, 30}[r2.Intn(5)])
+			o.Method = []int{4, 4, 2, 3, 5, 6, 1, 0}[r2.Intn(8)]
+			o.Segments = 2 + r2.Intn(3)
+			o.SNSStrength = []int{50, 100, 30, 80}[r2.Intn(4)]
+			o.Partitions = r2.Intn(4)
+			o.FilterStrength = []int{0, 0, 40, 0, 20}[(i/37)%5]
+			o.FilterSharpness = r2.Intn(8)
+			procs = []int{1, 4}[r2.Intn(2)]
+			rep.Count("class:texture-with-odd-macroblock")
+		}
 		runtime.GOMAXPROCS(procs)
 		desc := fmt.Sprintf("%s q=%v m=%d seg=%d part=%d pass=%d sns=%d fs=%d sharp=%d ft=%d qmin=%d qmax=%d ts=%d psnr=%v syuv=%v pre=%d procs=%d",
-			imgDesc(sz[0], sz[1], cls, acls), o.Quality, o.Method, o.Segments, o.Partitions, o.Pass, o.SNSStrength, o.FilterStrength, o.FilterSharpness, o.FilterType, o.QMin, o.QMax, o.TargetSize, o.TargetPSNR, o.UseSharpYUV, o.Preprocessing, procs)
+			idesc, o.Quality, o.Method, o.Segments, o.Partitions, o.Pass, o.SNSStrength, o.FilterStrength, o.FilterSharpness, o.FilterType, o.QMin, o.QMax, o.TargetSize, o.TargetPSNR, o.UseSharpYUV, o.Preprocessing, procs)
 		mu.Lock()
 		last = nil
 		mu.Unlock()
@@ -139,11 +164,28 @@ func suiteRecon(rep *Report) error {
 			lines = append(lines, "vp8raw "+hx(fr.Payload))
 			pends = append(pends, pend{desc, *rec, short(hx(file), 6000)})
 		}
+		if i%37 == 5 && driverHas("vp8info") {
+			infoLines = append(infoLines, "vp8info "+hx(fr.Payload))
+			infoDesc = append(infoDesc, desc)
+		}
 		rep.Eval(!isFlat(img), append([]byte(desc), img.Pix...))
 		rep.Count(fmt.Sprintf("method:%d", o.Method))
 		rep.Count(fmt.Sprintf("procs:%d", procs))
 		if i < 3 {
 			rep.Sample(map[string]any{"case": desc, "bytes": len(file)})
+		}
+	}
+	if len(infoLines) > 0 {
+		// distribution only: did the texture cases reach "segmentation on, segment map not sent"?
+		out, err := RunDriver(infoLines)
+		if err != nil {
+			return err
+		}
+		for k, l := range out {
+			rep.Count(fmt.Sprintf("texture-with-odd-macroblock:seg=%s,segmap=%s", vp8InfoField(l, "seg"), vp8InfoField(l, "segmap")))
+			if os.Getenv("VERIF_DEBUG") != "" {
+				fmt.Println(infoDesc[k], "->", short(l, 260))
+			}
 		}
 	}
 	if len(lines) > 0 {
@@ -166,6 +208,38 @@ func suiteRecon(rep *Report) error {
 		rep.Notes = append(rep.Notes, "driver has no vp8raw op yet: pre-filter comparison skipped; only FilterStrength=0 cases compared")
 	}
 	return nil
+}
+
+// genTextureOutlier: one 16x16-periodic texture over the whole picture, except k (1, or 2 when that is
+// still below 1/510 of the macroblocks) macroblocks that are flat.
+func genTextureOutlier(r *RNG, w, h int) (*image.NRGBA, string) {
+	img := image.NewNRGBA(image.Rect(0, 0, w, h))
+	mbw, mbh := (w+15)/16, (h+15)/16
+	k := 1
+	if mbw*mbh >= 1024 && r.Chance(1, 3) {
+		k = 2
+	}
+	odd := map[[2]int]bool{}
+	for len(odd) < k {
+		odd[[2]int{r.Intn(mbw), r.Intn(mbh)}] = true
+	}
+	a, b, m, base := 3+r.Intn(9), 2+r.Intn(8), 40+r.Intn(50), 60+r.Intn(80)
+	tint := [3]int{r.Intn(30), r.Intn(30), r.Intn(30)}
+	if r.Chance(1, 2) {
+		tint = [3]int{}
+	}
+	flat := byte(100 + r.Intn(60))
+	for y := 0; y < h; y++ {
+		for x := 0; x < w; x++ {
+			v := base + ((x%16)*a+(y%16)*b)%m
+			c := color.NRGBA{byte(v + tint[0]), byte(v + tint[1]), byte(v + tint[2]), 255}
+			if odd[[2]int{x / 16, y / 16}] {
+				c = color.NRGBA{flat, flat, flat, 255}
+			}
+			img.SetNRGBA(x, y, c)
+		}
+	}
+	return img, fmt.Sprintf("texture16(a=%d,b=%d,m=%d)+%dflatMB", a, b, m, k)
 }
 
 func methodClass(m, procs int) string {
